@@ -10,5 +10,5 @@ pub fn make(id: &str) -> Option<Box<dyn Monitor>> {
 }
 
 pub fn selftest() -> i32 {
-    0
+    crate::selftest::run()
 }
